@@ -372,6 +372,7 @@ func worker(args []string) {
 	for c := int64(i); c < total; c += int64(w) {
 		runCase(run, c, base)
 	}
+	run.MarkComplete()
 	if err := run.ExportTo(out); err != nil {
 		fmt.Println("export failed:", err)
 		os.Exit(1)
